@@ -2,13 +2,22 @@
    This file: the bookkeeping of MasterScheduler.schedule_interrupt -- given the stamp (real-time arithmetic, modelled
    over the rationals in Model/Master.v and compared, not translated), the wakeup the interrupt leaves is the stamp, but
    never later than a wakeup already pending for the component ([interrupt_wake] of Model/Master.v, [stim] of Model/NSim.v). *)
+From Coq Require Import Lia.
 From TV Require Import Base Model.PyLib Model.Wiring Model.Ticker Model.Master Gen.SourceFuns.
 Open Scope Z_scope.
 
 Theorem schedule_interrupt_is_source (w : list (comp * Z)) (c : comp) (t : Z) :
   gen_schedule_interrupt w c t = upd c (match lookup c w with Some w0 => Z.min t w0 | None => t end) w.
 Proof.
-  unfold gen_schedule_interrupt, gen_add_wakeup, py_get. destruct (lookup c w); [reflexivity | rewrite Z.min_id; reflexivity].
+  (* by cases, not by the shape of the generated term: min(a, b) may be written with a comparison in the source *)
+  unfold gen_schedule_interrupt, gen_add_wakeup, py_get. cbv zeta.
+  destruct (lookup c w) as [z|]; f_equal;
+    repeat match goal with
+           | |- context [Z.ltb ?a ?b] => destruct (Z.ltb_spec a b)
+           | |- context [Z.leb ?a ?b] => destruct (Z.leb_spec a b)
+           | |- context [Z.gtb ?a ?b] => rewrite (Z.gtb_ltb a b)
+           | |- context [Z.geb ?a ?b] => rewrite (Z.geb_leb a b)
+           end; lia.
 Qed.
 
 Theorem interrupt_wake_is_source num den (m : master) (r : Z) (c : comp) :
